@@ -212,6 +212,26 @@ def c34Run (op : String) (ticks : List String) : Option String :=
     pure ("|".intercalate ((List.range h.length).map fun i =>
       let (acks, st) := run.getD i ([], 0)
       s!"acks={showInts acks};resp={showPairs ((rs.getD i []).map fun r => (r, st))}"))
+  | "atomic_lww" | "atomic_max" => do
+    let h ← ticks.mapM splitTwo
+    let ws ← h.mapM (fun p => parseItems p.1)
+    let rs ← h.mapM (fun p => parseItems p.2)
+    let run := if op == "atomic_lww" then runAtomic lwwStep ⟨[], none⟩ (prodSchedule ws)
+      else runAtomic maxRegStep ⟨[], none⟩ (prodSchedule ws)
+    pure ("|".intercalate ((List.range h.length).map fun i =>
+      let (acks, st) := run.getD i ([], none)
+      let sv := match st with | some v => toString v | none => "none"
+      let resp := if (rs.getD i []).isEmpty then "-" else ",".intercalate ((rs.getD i []).map fun r => s!"{r}:{sv}")
+      s!"acks={showInts acks};resp={resp}"))
+  | "keyed_lww" => do
+    let h ← ticks.mapM splitTwo
+    let ws ← h.mapM (fun p => parsePairs p.1)
+    let rs ← h.mapM (fun p => parsePairs p.2)
+    let run := runAtomic klwwStep ⟨[], []⟩ (prodSchedule ws)
+    pure ("|".intercalate ((List.range h.length).map fun i =>
+      let (acks, st) := run.getD i ([], [])
+      let resp := (rs.getD i []).filterMap fun g => (lookup st g.2).map fun v => (g.1, g.2, v)
+      s!"acks={showPairs (sortPairs acks)};resp={showTriples resp}"))
   | "keyed_counter" => do
     let h ← ticks.mapM splitTwo
     let ws ← h.mapM (fun p => parsePairs p.1)
@@ -241,7 +261,9 @@ def parseEv (t : String) : Option Ev :=
   else if t.startsWith "A" then (parseInt (t.drop 1).toString).map .ack
   else if t.startsWith "R" then
     match ((t.drop 1).toString).splitOn "=" with
-    | [i, v] => do let i ← parseInt i; let v ← parseInt v; pure (.resp i v)
+    | [i, v] => do
+      let i ← parseInt i
+      if v == "-" then pure (.respNone i) else do let v ← parseInt v; pure (.resp i v)
     | _ => none
   else none
 
@@ -283,6 +305,9 @@ def simLine (ws : List String) : Option String :=
   | ["sa", _script, tl] => do
     let evs ← (tl.splitOn ",").mapM parseEv
     pure (verdict (simAtomicOk evs))
+  | ["sl", _script, tl] => do
+    let evs ← (tl.splitOn ",").mapM parseEv
+    pure (verdict (simLwwOk evs))
   | ["sim-complete"] => some "ok"
   | _ => none
 
